@@ -27,7 +27,7 @@ func init() { Register("zeroing", buildZeroing) }
 // all-zero address is an ordinary address.
 func buildZeroing(seed int64) (*Scenario, error) {
 	s := Sched(100, 101, 101, 101, 101, 101, 101, 104, 110, 116, 120, 124, 130)
-	b := NewB(seed, s, 128)
+	b := NewB(seed, s, 146)
 	rng := b.Rng
 	FCT, USD, XBT, PEG := fat2.PTickerFCT, fat2.PTickerUSD, fat2.PTickerXBT, fat2.PTickerPEG
 	alice := Key("alice", 0)
@@ -78,10 +78,14 @@ func buildZeroing(seed int64) (*Scenario, error) {
 	b.OPR(120, 25, hprice(seed, 120), payout)
 	b.OPR(124, 25, hprice(seed, 124), payout)
 	b.OPR(126, 25, hprice(seed, 126), payout)
+	// 127..146: blocks without any entry on the three chains; 144 is a snapshot and developer-payout height all
+	// the same (the schedule goes by the height alone: 2000 PEG x 144 to the developers, stakes valued at the most
+	// recent rates)
 	var all []uint32
 	for h := uint32(105); h <= 128; h++ {
 		all = append(all, h)
 	}
+	all = append(all, 143, 144, 145)
 	b.Dump(all...)
 	return b.Finish()
 }
